@@ -37,7 +37,7 @@ OPEN_STATEMENTS = [
     'su2_relations for all n: oracle only (n <= 3)',
     'fourier_transform_unitary_structure / isospectrality: numeric oracle only',
     'isospectrality of momentum-space and position-space jellium fails on non-orthogonal cells with mixed even / >= 3 grid lengths: known finding C13-jellium-sheared-even',
-    'diagonal_neighbors_iter equals the Spec diagonal edge set only for periodic lattices with y >= 3 (or x = 1 / y = 1): known finding C13-diagonal-neighbors; no theorem is stated for it',
+    'diagonal_neighbors_iter = Spec diagonal edge set (adjD): correspondence + Spec oracle on all lattices x, y <= 7 / 10; no theorem yet',
 ]
 
 EDGE_NAMES = ['onsite', 'neighbor', 'diagonal_neighbor', 'horizontal_neighbor', 'vertical_neighbor']
@@ -310,10 +310,7 @@ def stream_bonds(ctx, E):
                 except Exception as ex:  # noqa: BLE001
                     s.violate('site_pairs_iter raised', dict(case, edge=EDGE_NAMES[e], ordered=o), repr(ex))
                     continue
-                known_class = e == 2 and x >= 2 and y >= 2 and (y == 2 or not p)
-                # inside the input class of a known finding the implementation is compared with the Spec only
-                # (the Model mirrors the defective code; a repaired tree must pass silently)
-                if sorted(io) != mo and not known_class:
+                if sorted(io) != mo:
                     s.disagree('site_pairs_iter(%s, %s)' % (EDGE_NAMES[e], o), case, sorted(io), mo)
                 # Spec: unordered -> each edge once (either orientation); ordered -> both orientations once
                 if e == 0:
@@ -540,10 +537,6 @@ def gen_fhm(rng, big):
         inter.append([e, a, aa, rng.choice([1.0, 1, coupling(rng, 0.05)]), sp])
     for _ in range(rng.randint(0, 2)):
         pot.append([rng.randrange(n_dofs), coupling(rng, 0.05)])
-    if c['phs'] and rng.random() < 0.6:
-        # keep most particle-hole cases outside the input class of known finding C13-phs-coefficient
-        inter = [[e, a, aa, 1.0, sp] for e, a, aa, _, sp in inter]
-        pot = []
     c.update(tunneling=tun, interaction=inter, potential=pot)
     return c
 
@@ -616,22 +609,6 @@ def doc_fhm(c, E):
     return A.d, n_sites * per
 
 
-def uses_bad_diagonal(c):
-    """input class of known finding C13-diagonal-neighbors"""
-    bad_lattice = c['x'] >= 2 and c['y'] >= 2 and (c['y'] == 2 or not c['periodic'])
-    return bad_lattice and any(p[0] == 2 for p in c['tunneling'] + c['interaction'])
-
-
-def uses_phs_coefficient(c):
-    """input class of known finding C13-phs-coefficient"""
-    return c['phs'] and (any(Fraction(p[3]) != 1 for p in c['interaction']) or bool(c['potential']))
-
-
-def uses_spinless_diff(c):
-    """input class of known finding C13-spinless-diff"""
-    return c['spinless'] and any(p[4] == 'DIFF' for p in c['interaction'])
-
-
 def stream_fhm(ctx, E):
     of = ctx.of
     s = Stream('fermi-hubbard-model', 'random valid FermiHubbardModel parameter sets (lattices <= 3x3 (thorough: + 2x4, 4x2), n_dofs <= 3, '
@@ -658,12 +635,7 @@ def stream_fhm(ctx, E):
         except Exception as e:  # noqa: BLE001
             s.violate('FermiHubbardModel raised on a valid parameter set', c, repr(e))
             continue
-        in_known_class = uses_bad_diagonal(c) or uses_phs_coefficient(c) or uses_spinless_diff(c)
-        if in_known_class:
-            s.count('known-finding-class (Spec comparison only)')
         for part, o, mo in zip(parts, outs, model[5 * k: 5 * k + 5]):
-            if in_known_class:
-                break
             if canon_op_json(enc_op('fermion', o.terms)) != canon_op_json(mo):
                 s.disagree('FermiHubbardModel.' + part, c, enc_op('fermion', o.terms), mo)
                 break
@@ -1081,32 +1053,12 @@ def classify(v):
                                               or what.startswith('momentum-space and position-space jellium are not isospectral')):
         if sheared_even_class(c):
             return 'C13-jellium-sheared-even'
-    if what.startswith('site_pairs_iter(diagonal_neighbor)') and c.get('x', 0) >= 2 and c.get('y', 0) >= 2 \
-            and (c.get('y') == 2 or not c.get('periodic')):
-        return 'C13-diagonal-neighbors'
-    if what.startswith('FermiHubbardModel.hamiltonian()') and 'docstring' in what and 'tunneling' in c:
-        if uses_bad_diagonal(c):
-            return 'C13-diagonal-neighbors'
-        if uses_phs_coefficient(c):
-            return 'C13-phs-coefficient'
-        if uses_spinless_diff(c):
-            return 'C13-spinless-diff'
     return None
 
 
 def probe_known(ctx, k):
     of = ctx.of
-    from openfermion.utils import HubbardSquareLattice, SpinPairs
     try:
-        if k['id'] == 'C13-diagonal-neighbors':
-            got = sorted(HubbardSquareLattice(2, 2, periodic=True).site_pairs_iter('diagonal_neighbor', False))
-            return sorted((min(a, b), max(a, b)) for a, b in got) != [(0, 3), (1, 2)]
-        if k['id'] == 'C13-phs-coefficient':
-            lat = HubbardSquareLattice(1, 1, periodic=False)
-            H = of.FermiHubbardModel(lat, interaction_parameters=[('onsite', (0, 0), 2.0)],
-                                     particle_hole_symmetry=True).hamiltonian()
-            # docstring: 2 (n_up - 1/2)(n_down - 1/2) = 2 n n - n_up - n_down + 1/2
-            return H.terms.get(((1, 1), (1, 0)), 0) != -1.0 or H.terms.get((), 0) != 0.5
         if k['id'] == 'C13-jellium-sheared-even':
             import numpy
             from openfermion.utils import Grid
@@ -1114,10 +1066,6 @@ def probe_known(ctx, k):
             ea = numpy.linalg.eigvalsh(of.get_sparse_operator(of.jellium_model(g, True, True), 6).toarray())
             eb = numpy.linalg.eigvalsh(of.get_sparse_operator(of.jellium_model(g, True, False), 6).toarray())
             return bool(numpy.max(numpy.abs(ea - eb)) > 1e-6)
-        if k['id'] == 'C13-spinless-diff':
-            lat = HubbardSquareLattice(2, 1, periodic=False, spinless=True)
-            H = of.FermiHubbardModel(lat, interaction_parameters=[('neighbor', (0, 0), 1.0, SpinPairs.DIFF)]).hamiltonian()
-            return len(H.terms) == 0
     except Exception:  # noqa: BLE001
         return True
     return False
